@@ -640,3 +640,101 @@ func ruleOPT(c *Ctx) {
 	})
 	c.check(revive, "OPT.3/destination-revives", opt, "an instruction that is a jump destination ends a dead region (checked first)", "the dead-code pass no longer clears the dead flag at jump destinations: reachable code after a return would be removed")
 }
+
+// LOCALTS: typestate of local slots. A local slot may only be pointed at
+// (GETLP) or stored through (SETL) once it has been defined (DEFL is the one
+// opcode that overwrites a slot without looking through a captured-variable
+// cell left there by an earlier scope). The compiler tracks this with
+// Symbol.LocalAssigned; both sites must consult it and define first.
+func ruleLOCALTS(c *Ctx) {
+	w := c.W
+	p := w.Root
+	n := 0
+	for _, es := range w.emitSites() {
+		if es.Kind != "emit" || len(es.Ops) != 1 || len(es.Args) < 1 {
+			continue
+		}
+		op := es.Ops[0]
+		if op != "OpGetLocalPtr" && op != "OpSetLocal" {
+			continue
+		}
+		f, symExpr := FieldSel(p, es.Args[0])
+		if f == nil || f.Name() != "Index" {
+			continue
+		}
+		sym := w.Src(symExpr)
+		n++
+		var stack []ast.Node
+		inspectWithStack(es.Fn, func(nd ast.Node, st []ast.Node) bool {
+			if nd == ast.Node(es.Call) {
+				stack = append([]ast.Node{}, st...)
+			}
+			return true
+		})
+		key := fmt.Sprintf("local-typestate/%s/%s#%d", w.ctxKey(es.Call.Pos()), op, n)
+		definesIn := func(b ast.Node) bool {
+			return containsNode(b, func(m ast.Node) bool {
+				call, ok := m.(*ast.CallExpr)
+				if !ok || !isMethodOf(Callee(p, call), p.Types, "Compiler", "emit") || len(call.Args) < 3 {
+					return false
+				}
+				co := ConstObj(p, call.Args[1])
+				return co != nil && co.Name() == "OpDefineLocal" && w.Src(call.Args[2]) == sym+".Index"
+			})
+		}
+		good := false
+		switch op {
+		case "OpGetLocalPtr":
+			// preceded (same list) by `if !sym.LocalAssigned { …emit(DEFL, sym.Index)…; sym.LocalAssigned = true }`
+			for i := len(stack) - 1; i > 0 && !good; i-- {
+				var list []ast.Stmt
+				switch par := stack[i-1].(type) {
+				case *ast.BlockStmt:
+					list = par.List
+				case *ast.CaseClause:
+					list = par.Body
+				}
+				for j, s := range list {
+					if ast.Node(s) != stack[i] || j == 0 {
+						continue
+					}
+					if is, ok := list[j-1].(*ast.IfStmt); ok && strings.ReplaceAll(w.Src(is.Cond), " ", "") == "!"+sym+".LocalAssigned" {
+						marks := containsNode(is.Body, func(m ast.Node) bool {
+							as, ok := m.(*ast.AssignStmt)
+							return ok && len(as.Lhs) == 1 && w.Src(as.Lhs[0]) == sym+".LocalAssigned" && w.Src(as.Rhs[0]) == "true"
+						})
+						good = definesIn(is.Body) && marks
+					}
+				}
+			}
+		case "OpSetLocal":
+			// the else-branch of `if … !sym.LocalAssigned { emit(DEFL) } else { emit(SETL) }`
+			for i := len(stack) - 1; i > 0 && !good; i-- {
+				if is, ok := stack[i-1].(*ast.IfStmt); ok && is.Else != nil && stack[i] == ast.Node(is.Else) {
+					if strings.Contains(strings.ReplaceAll(w.Src(is.Cond), " ", ""), "!"+sym+".LocalAssigned") && definesIn(is.Body) {
+						good = true
+					}
+				}
+			}
+		}
+		c.check(good, key, es.Call, "the slot is defined first whenever the symbol is not yet assigned", fmt.Sprintf("%s is emitted for %s without first defining the slot when %s.LocalAssigned is false: the slot may still hold the captured-variable cell of an earlier block, so a closure created earlier would see (or be overwritten by) the new variable", op, sym, sym))
+	}
+	if n < 2 {
+		c.fail("local-typestate/count", nil, fmt.Sprintf("expected the capture site (GETLP) and the assignment site (SETL); found %d", n))
+	}
+	// who may set LocalAssigned = true: only next to a definition, a parameter, or a for-in variable
+	w.AllFuncDecls(p, func(fd *ast.FuncDecl) {
+		ast.Inspect(fd.Body, func(nd ast.Node) bool {
+			as, ok := nd.(*ast.AssignStmt)
+			if !ok || len(as.Lhs) != 1 {
+				return true
+			}
+			f, _ := FieldSel(p, as.Lhs[0])
+			if f == nil || f.Name() != "LocalAssigned" {
+				return true
+			}
+			c.check(w.Src(as.Rhs[0]) == "true", fmt.Sprintf("local-typestate/set/%s", w.ctxKey(as.Pos())), as, "LocalAssigned only ever becomes true", "LocalAssigned is reset: "+w.Src(as))
+			return true
+		})
+	})
+}
